@@ -237,6 +237,7 @@ func (a *idxAnalysis) run() {
 		return true
 	})
 	// map value index spaces
+	mapKey := map[types.Object]string{}
 	ast.Inspect(fd.Body, func(n ast.Node) bool {
 		s, ok := n.(*ast.AssignStmt)
 		if !ok || len(s.Lhs) != 1 || len(s.Rhs) != 1 {
@@ -261,6 +262,18 @@ func (a *idxAnalysis) run() {
 			a.mapVal[obj] = "" // conflicting
 		} else if !seen {
 			a.mapVal[obj] = sp
+		}
+		// a position map (int -> int) is keyed by the positions of ONE collection: keys taken from two different
+		// collections collide (position 0 of the one is position 0 of the other) and the later entry replaces the earlier
+		if isIntType(a.info.TypeOf(ix.Index)) {
+			if ks := a.idxOf(ix.Index); ks != "" && ks != "const" {
+				if old, seen := mapKey[obj]; seen && old != ks {
+					a.sum.Findings = append(a.sum.Findings, IdxFinding{"mismatch", a.fs.key, s.Pos(), types.ExprString(ix),
+						"the position map " + obj.Name() + " is keyed by positions of " + old + " and of " + ks + ": the two collections number their elements independently, so the entries of one replace those of the other"})
+				} else if !seen {
+					mapKey[obj] = ks
+				}
+			}
 		}
 		return true
 	})
